@@ -33,6 +33,41 @@ CHECKS = {
         text="Wcag.tla is the WCAG 2 definition in exact integer arithmetic; MC_Wcag checks its self-consistency on 4x65,536 pairs. Every observed luminance, ratio (both argument orders), level and label of the implementation is a state judged by TLC; thorough tier covers all 16,777,216 luminances and all 65,536 grey pairs.",
         note="Trusted: table generator (40 lines, integer bisection), floor(x*1e8)/floor(x*1e6) observation encoding.",
         ref="5 C05"),
+    "C06": dict(
+        technique="TLA+ trace validation (TrPair.tla: OutFormat table of CssColor.tla, read-back clauses) + TLC judging whole formatter planes (FmtGrid.tla)",
+        text="CssColor.OutFormat is the documented format mapping. Code level: 13 spelling classes incl. case/whitespace variants x outcomes x modes, each Fix event judged by TLC: shape = OutFormat(spelling), CSS read-back = library read-back = judged colour. Exhaustive half: for red planes (thorough: all 2^24 colours) x 4 formats the formatted value is read back by both readers and TLC checks equality plane by plane.",
+        note="Trusted: harness CSS reader (refs.css_parse, exact rationals, calibrated against CssColor.tla in C07); the judged colour is the result of the same call on int tuples.",
+        ref="5 C06"),
+    "C07": dict(
+        technique="TLA+ definition of CSS Color 3 values (CssColor.tla, exact integers) + TLC judging observed parser results (TrCss.tla events, CssGrid.tla planes)",
+        text="CssColor.tla/CssNamed.tla define hex, keywords, rgb ints/percentages, hsl (hue wrap, sectors, rounding as admissible sets), source-over compositing; MC_CssColor checks the definition's sanity. The harness renders abstract values into equivalent spellings; every observed parse is judged by TLC. Thorough: all integer hsl planes for hues -360..719 and all 2^24 six-digit hex strings.",
+        note="Trusted: tinycss2.color3 keyword table as source of CssNamed.tla; the harness' rendering of abstract values into text.",
+        ref="5 C07"),
+    "C12": dict(
+        technique="TLA+ API state machine (Api.tla: BulkLength/BulkIsMap/BulkInvalid) + TLC-generated inputs (BulkLists.tla) replayed into the code + trace validation (TrApi.tla)",
+        text="TLC enumerates every list of <=3 entries over 8 entry kinds x 3 arities; each is bound to concrete colours; the recorded behaviour (single-pair calls on fresh objects, bulk, bulk with the other setting, reversed bulk, singles again) is validated against Api.tla; status = label of the returned colour by Wcag.tla.",
+        note="Trusted: harness CSS reader for the status clause; WCAG tables.",
+        ref="5 C12"),
+    "C13": dict(
+        technique="TLA+ trace validation (TrPair.tla Construct: source-over rule of CssColor.tla over the pair's own background; label by Wcag.tla)",
+        text="Abstract (foreground, alpha in thousandths, background opaque or translucent) rendered in the three translucent spellings x many background spellings; TLC judges pair.text.rgb / pair.bg.rgb against the exact blend (1.5 allowance, alpha 0/1 end points), is_readable on the composite, and the C01/C02 predicates on following fixes.",
+        note="Trusted: harness rendering of abstract values; WCAG tables.",
+        ref="5 C13"),
+    "C14": dict(
+        technique="TLA+ API state machine (Api.tla: ConstructOk, ReadableOnInvalid, FixOnInvalid, BulkInvalid) + trace validation (TrApi.tla) of enumerated input shapes",
+        text="Every sequence of <=3 (thorough 4) elements over 29 element classes as tuple and list, sampled longer ones, token strings over a near-miss alphabet and mutated CSS go through Color(...); pair-level histories (is_readable, make_readable x 3 modes, bulk with the bad entry between good ones) follow; TLC judges each recorded operation against the outcome algebra.",
+        note="No numeric oracle. Design level: MC_Api (InvalidInert, NoRefusal).",
+        ref="5 C14"),
+    "C15": dict(
+        technique="TLA+ API state machine with history variable memo (Api.tla: FixPure etc.) + TLC-generated histories (ApiHist.tla) replayed into the code + trace validation (TrApi.tla) merged with fresh-interpreter references and thread logs",
+        text="TLC enumerates all API histories of depth <=3 (43k); sampled (quick) or broadly (thorough) bound to concrete pair pairs, executed in-process, merged with reference observations from fresh interpreter processes (two hash seeds) and validated: any result that contradicts an earlier observation of the same arguments is a violation; 4-thread workloads validated the same way.",
+        note="Pre-emptive interleavings are sampled, not enumerated. Design level: MC_Api (MemoAgreesWithLib).",
+        ref="5 C15"),
+    "C17": dict(
+        technique="TLA+ API state machine (Api.tla: Quiet, OnlyReport, FixPure ignoring show/save) + TLC-generated cases (QuietCases.tla) replayed into the code + trace validation (TrApi.tla)",
+        text="TLC enumerates spelling x outcome x mode x very_readable x visibility (936 cases); each executed in a scratch directory with fd-level capture of stdout/stderr and directory diffs; TLC judges Quiet, OnlyReport, SameResult, never-raised for every operation incl. construction, bulk and package import.",
+        note="Trusted: fd-level capture and directory listing in the harness.",
+        ref="5 C17"),
     "C16": dict(
         technique="TLA+ trace validation (TrPair.tla: Mode2CoversMode1P, OrdinaryCoversPremiumP) + TLC model checking of Strat.tla and the product model Opt2.tla",
         text="Design level: Mode2CoversMode1 on Strat.tla; OrdinaryCoversPremium on the product run Opt2.tla (very_readable then ordinary on the same lazily chosen per-tolerance oracles, search modelled step by step). Code level: each recorded pair is run in all 3 modes x both settings in one process; TLC compares the runs pairwise.",
@@ -45,7 +80,7 @@ NOT_APPLICABLE = [
     {"property_id": "C11", "reason": "pure transcendental float accuracy (CIE Lab, CIEDE2000: sqrt, sin, cos, exp, atan2, 7th powers); not expressible in a TLA+ specification - DESIGN.md section 6"},
 ]
 
-PENDING = {k: 'check under construction in this round (specification and harness not finished); will be claimed once built' for k in ('C06','C07','C08','C09','C12','C13','C14','C15','C17','C18','C19')}  # id -> reason, for properties whose check is not built yet
+PENDING = {k: 'check under construction in this round (specification and harness not finished); will be claimed once built' for k in ('C08','C09','C18','C19')}  # id -> reason, for properties whose check is not built yet
 
 
 def main():
